@@ -845,7 +845,7 @@ fn strat_strategy(max_n: usize) -> impl Strategy<Value = StratCase> {
 
 pub fn run_c12(ctx: &Ctx) {
     let t = ctx.tier();
-    ctx.run_proptest("strat", t.pick(40_000, 1_000_000), strat_strategy(t.pick(400, 10_000)), &check_strat);
+    ctx.run_proptest("strat", t.pick(40_000, 400_000), strat_strategy(t.pick(400, 4_000)), &check_strat);
 }
 
 pub fn replayers_c13() -> Vec<(&'static str, ReplayFn)> {
